@@ -338,11 +338,11 @@ class SStr:
     def lower(self) -> "SStr":
         return self._map_case("lower")
 
-    def strip(self, chars: str | None = None) -> "SStr":
+    def strip(self, chars: str | None = None, left: bool = True, right: bool = True) -> "SStr":
         ws = chars if chars is not None else WS
         pieces = list(self.pieces)
         # left
-        while pieces:
+        while pieces and left:
             p = pieces[0]
             if isinstance(p, str):
                 q = p.lstrip(ws)
@@ -359,7 +359,7 @@ class SStr:
                 pieces[0] = p.with_op(("lstrip", ws), first=p.first.minus(ws), nonempty=False)
                 break
             raise AnalysisError("strip over a repeated piece is not modelled")
-        while pieces:
+        while pieces and right:
             p = pieces[-1]
             if isinstance(p, str):
                 q = p.rstrip(ws)
